@@ -6,7 +6,9 @@ import (
 	"flag"
 	"fmt"
 	"os"
+	"runtime/pprof"
 	"strings"
+	"time"
 
 	"verifharness/extract"
 	"verifharness/fw"
@@ -47,6 +49,20 @@ var registry = map[string]func() fw.Prop{
 	"C15": func() fw.Prop { return c15.Prop{} },
 	"C16": func() fw.Prop { return c16.Prop{} },
 	"C17": func() fw.Prop { return c17.Prop{} },
+}
+
+func init() {
+	// development aid: VERIF_HEAPPROF=<file> writes a heap profile after 60 s
+	if f := os.Getenv("VERIF_HEAPPROF"); f != "" {
+		go func() {
+			time.Sleep(60 * time.Second)
+			w, err := os.Create(f)
+			if err == nil {
+				pprof.WriteHeapProfile(w)
+				w.Close()
+			}
+		}()
+	}
 }
 
 func main() {
